@@ -147,6 +147,7 @@ type clientState struct {
 	task    *rt.Task
 	finished bool
 	busyNode int
+	sleepUntil time.Duration
 }
 
 // InstallHooks points the repository's hook functions at the scheduler.
@@ -339,6 +340,36 @@ func (w *World) Start() {
 	w.S.Settle()
 }
 
+// sleepQuantum: when every unfinished client is deliberately pausing, the clock may move in
+// larger hops (up to the earliest wake-up, at most a minute at a time).
+func (w *World) sleepQuantum() time.Duration {
+	var min time.Duration
+	now := w.S.SimTime()
+	any := false
+	for _, cs := range w.clients {
+		if cs.finished {
+			continue
+		}
+		if cs.sleepUntil == 0 {
+			return 0
+		}
+		rem := cs.sleepUntil - now
+		if rem <= 0 {
+			return 0
+		}
+		if !any || rem < min {
+			min, any = rem, true
+		}
+	}
+	if !any {
+		return 0
+	}
+	if min > time.Minute {
+		min = time.Minute
+	}
+	return min
+}
+
 // clientsSettled: every client has finished or is blocked inside a crashed node.
 func (w *World) clientsSettled() bool {
 	for _, cs := range w.clients {
@@ -372,12 +403,18 @@ func (w *World) Run() {
 			steps++
 			continue
 		}
-		if w.S.SimTime()-w.lastProgress > 90*time.Second {
+		q := w.sleepQuantum()
+		if q == 0 && w.S.SimTime()-w.lastProgress > 90*time.Second {
 			w.Stuck = true
 			w.StuckWhy = "clients blocked for 90 simulated seconds"
 			return
 		}
-		w.S.Advance(500 * time.Millisecond)
+		if q == 0 {
+			q = 500 * time.Millisecond
+		} else {
+			w.lastProgress = w.S.SimTime() + q // a deliberate pause is not a stall
+		}
+		w.S.Advance(q)
 	}
 	if !w.clientsSettled() {
 		w.Stuck = true
